@@ -468,6 +468,37 @@ def rule_read_level(chk, rid, ctx):
                                 " (K is not fixed by the path conditions)"), rel=b.rel, node=it.node)
 
 
+def rule_strip(chk, rid, ctx):
+    """`Sequence.remove_useless_wm()` is what the grammar reads as "the leading Write of the inserted sequence is dropped"
+    (the checkpoint is already stored by the caller): every branch that recognises a leading write operation must remove
+    it before returning - otherwise the converter writes a checkpoint over an existing one"""
+    repo = ctx.repo
+    rel = "hrevolve_sequences/basic_functions.py"
+    try:
+        f = repo.method(rel, "Sequence", "remove_useless_wm")
+    except Exception:
+        return
+    k = 0
+    for n in ast.walk(f):
+        if isinstance(n, ast.If) and any(isinstance(x, ast.Constant) and isinstance(x.value, str) and x.value.startswith(("Write", "Checkpoint"))
+                                         for x in ast.walk(n.test)):
+            # innermost block that ends the recognition: contains `return self`
+            def blocks(stmts):
+                if any(isinstance(s_, ast.Return) for s_ in stmts):
+                    yield stmts
+                for s_ in stmts:
+                    if isinstance(s_, ast.If):
+                        yield from blocks(s_.body)
+            for blk in blocks(n.body):
+                removes = any(isinstance(x, ast.Call) and isinstance(x.func, ast.Attribute) and x.func.attr == "remove"
+                              for s_ in blk for x in ast.walk(s_))
+                chk.decide(rid, f"hrevolve_sequences.basic_functions.Sequence.remove_useless_wm#strip[{k}]", True if removes else False,
+                           f"branch `{ast.unparse(n.test)[:70]}` " + ("removes the leading write before returning" if removes else
+                           "returns without removing the leading write: the inserted sequence writes the checkpoint again"),
+                           rel=rel, node=n, nontrivial=False)
+                k += 1
+
+
 def run(chk, ctx):
     runs = all_runs(chk, ctx)
     shared.rule_start(chk, "C01.START", runs)
@@ -480,6 +511,7 @@ def run(chk, ctx):
     rule_paired(chk, "C01.SEQ", ctx)
     rule_seq_paths(chk, "C01.SEQ", ctx)
     rule_read_level(chk, "C01.SEQ", ctx)
+    rule_strip(chk, "C01.SEQ", ctx)
     chk.note("not decided: that the split points chosen by the dynamic programs make every sequence executable for all l, "
              "that a loaded checkpoint covers the steps still to be recomputed, and that Mixed's unit re-use never "
              "overwrites a live checkpoint (these depend on run-time table values)")
